@@ -9,7 +9,7 @@ size / dropped transfer, ANY regex answers and hash function:
   `afterHeader_sound`        hence a run that ends without error and with every chunk marked valid leaves a target of the
                              prescribed length, with the parsed header in front, in which every chunk is present;
   `update_yields_B`          which IS the server's file B — byte for byte — or exhibits two byte strings with the same checksum.
-What remains unproved for C04 is completeness: that the run does end that way (and requests exactly the missing extents).
+Completeness — that the run does end that way when the responses are well formed — is `C04Complete.lean`.
 -/
 import ZckModel.Props.C04
 import ZckModel.Props.C05Complete
